@@ -493,24 +493,41 @@ def directed_flood(names):
     return out
 
 
-# Finding F21 (regcomp bomb): StringMatcher::SetPattern hands client patterns to regcomp() unrestricted; glibc expands
-# interval expressions by repetition and nested ones multiply, so the 31-byte clause below keeps the (single-threaded)
-# server inside regcomp() for minutes and gigabytes -- nobody's ping is answered meanwhile.  Bounding pattern complexity is
-# a policy decision for the maintainer, so the cases are generated only when the finding is registered as `known` in
-# known_findings.json (match "regcomp-bomb") or when C07_REGEX_BOMB=1 asks for them.
-BOMB = "`(((a{1,100}){1,100}){1,100})"
+# Finding F60 (regcomp bomb; known finding): StringMatcher::SetPattern hands client patterns to regcomp() unrestricted; glibc
+# expands interval expressions by repetition and nested ones multiply.  Full size: the 31-byte clause BOMB_FULL keeps the
+# (single-threaded) server inside regcomp() for ~2 minutes and 2-5 GB (ASan build) -- nobody's ping is answered meanwhile.
+# The quick tier re-confirms the finding with a calibrated small bomb (measured on the ASan build: ~6-8 s of process CPU time,
+# < 250 MB) that trips the harness's per-op CPU budget (2 s; ordinary ops stay below 0.1 s); the thorough tier and
+# C07_REGEX_BOMB=1 use the full size, which the 20 s watchdog kills and reports.  C07_REGEX_BOMB=0 leaves the cases out.
+# The cases are generated only while known_findings.json lists the finding (match "regcomp-bomb") or on request.
+BOMB_FULL = "`(((a{1,100}){1,100}){1,100})"
+BOMB_QUICK = "`((a{1,170}){1,170})"
+CPU_BUDGET_S = "2"
+
+# every harness run of this check: a hard bound on resident memory (the bomb allocates until it is killed)
+vlib.SAN_ENV["ASAN_OPTIONS"] = vlib.SAN_ENV["ASAN_OPTIONS"] + ":hard_rss_limit_mb=3000"
+os.environ.setdefault("C07_CPU_BUDGET_S", CPU_BUDGET_S)
 
 
-def bomb_enabled():
-    if os.environ.get("C07_REGEX_BOMB") == "1":
-        return True
-    return any("regcomp-bomb" in (e.get("match") or "") for e in vlib.load_findings("C07"))
+def bomb_mode(tier):
+    """-> None | "quick" | "full" """
+    env = os.environ.get("C07_REGEX_BOMB")
+    if env == "0":
+        return None
+    if env == "1":
+        return "full"
+    if any("regcomp-bomb" in (e.get("match") or "") for e in vlib.load_findings("C07") if e.get("kind") == "known"):
+        return "full" if tier == "thorough" else "quick"
+    return None
 
 
-def bomb_cases(names):
+def bomb_cases(names, mode):
+    """already minimal (two sessions, one Message), so the shrinker has nothing slow to try"""
     K = names["PR_NAME_KEYS"]
-    return ["a;a;s:0:0:a=1;M:1:{c5,(%s,s,%s)};s:0:0:b=1" % (hexs(K), hexs(BOMB)),
-            "a;a;s:0:0:a=1;M:1:{c1,(%s,b,1)};s:0:0:b=1" % hexs("SUBSCRIBE:" + BOMB)]
+    if mode == "quick":
+        return ["a;a;M:1:{c5,(%s,s,%s)}" % (hexs(K), hexs(BOMB_QUICK))]
+    return ["a;a;M:1:{c5,(%s,s,%s)}" % (hexs(K), hexs(BOMB_FULL)),
+            "a;a;M:1:{c1,(%s,b,1)}" % hexs("SUBSCRIBE:" + BOMB_FULL)]
 
 
 class CHECK(vlib.Check):
@@ -551,8 +568,9 @@ class CHECK(vlib.Check):
             out.append(("modelled", "M|" + g.case(rng.choice([8, 12, 20, 30]), rng.choice([2, 2, 3]))))
         for c in directed_flood(names):
             out.append(("flood-directed", "F|" + c))
-        if bomb_enabled():
-            for c in bomb_cases(names):
+        mode = bomb_mode(tier)
+        if mode:
+            for c in bomb_cases(names, mode):
                 out.append(("flood-regcomp-bomb", "F|" + c))
         fl = Flood(rng, names)
         for i in range(n // 2):
@@ -576,9 +594,8 @@ class CHECK(vlib.Check):
 
     @staticmethod
     def _bomb(f):
-        """a hang whose case carries nested interval expressions is the regcomp bomb (finding F21)"""
-        sig = f.get("signature", "")
-        return ("hang" in sig or "watchdog" in sig) and hexs("{1,100}){1,100}") in (f.get("case") or "")
+        """a failure (hang, slow handler, memory kill) on a case that carries NESTED interval expressions is the regcomp bomb (F60)"""
+        return f.get("kind") in ("oracle", "crash") and hexs("}){1,") in (f.get("case") or "")
 
     def signature(self, f):
         s = f.get("signature", "")
